@@ -14,7 +14,7 @@ Codes 3 / 4 on a reference file are C06 discrepancies at message level.  The cla
 such (line `known`); anything else is a violation whose failing input is the structure's bytes.  For code 3 the real Go
 parser is run on the same bytes (harness c11, raw mode) so that the report shows what the implementation returns.
 """
-import collections, os
+import collections, json, os
 import vlib
 from props import c05, c05spec, c06switch
 
@@ -123,6 +123,21 @@ def tie(ctx):
             go=go.get(id(s)), code=c,
             replay_cmd="echo '{\"kind\":\"%s\",\"raw\":\"<bytes>\"}' | verifharness c11" % GO_KIND[s["kind"]]))
     known_lines = ["reader-vs-specification: %d structure(s) of reference files in a class refuted by %s" % (n, w) for w, n in sorted(known.items())]
+    # model-level open findings (specification-conformant MESSAGES the reader decodes to other values; no bundled file contains one):
+    # the witness bytes are parsed by the real Go parser on every run; still reproducing => KNOWN-FINDING line
+    for e in vlib.known_findings("C06"):
+        rc = e.get("reconfirm")
+        if not rc:
+            continue
+        try:
+            r = vlib.run_harness(ctx.harness, "c11", [rc["case"]])[0].get("raw") or {}
+        except Exception as ex:
+            r = {"c": "harness-error", "v": str(ex)[:200]}
+        if r.get("c") == "ok" and r.get("v") == rc["expect"]:
+            known_lines.append("%s: %s: the Go parser returns %s without error for the specification-conformant message %s (%s); Coq: %s" % (
+                e["id"], e.get("call_site", "")[:80], json.dumps(r.get("v")), rc["case"]["raw"], rc.get("spec"), e.get("coq")))
+        else:
+            known_lines.append("%s no longer reproduces on the Go parser (now: %s)" % (e["id"], json.dumps(r)[:200]))
     cov = dict(source_switches=sw, reference_files=len(files), structures_available=len(mine), structures_evaluated=len(picked),
                classes=len(seen), codes=dict(sorted(hist.items())),
                accepted_and_agreeing=sum(1 for c in codes if c == 2), accepted_reader_error=sum(1 for c in codes if c == 1),
